@@ -29,6 +29,12 @@ func (w *World) callSpan(actor string, idx int, gen int) (from, to int) {
 // monitorRequests checks C11 and the per-call part of C14 for Subscribe,
 // Unsubscribe, Ping and plain Publish calls.
 func (w *World) monitorRequests() {
+	for _, e := range w.log {
+		if e.K == "backoff" && e.N == -2 {
+			w.Violate("C14", "readbackoff-after-close", "ReadBackoff(%s) returned a channel; the permanent class gets nil", e.R)
+			break
+		}
+	}
 	tl, _ := w.wireTimeline()
 	stable := w.quiet && !w.horizonHit
 	if w.horizonHit {
@@ -551,6 +557,8 @@ func (w *World) monitorBackoff() {
 			}
 		case "backoff":
 			switch {
+			case e.N == -2:
+				// ReadBackoff(ErrClosed) returned a channel: C14's business
 			case e.N == -1:
 				w.Violate("C10", "backoff-after-success", "ReadBackoff after %s returned a channel that is not closed", e.R)
 			case strings.Contains(e.R, "Refused"):
